@@ -96,3 +96,25 @@ func (evm *EVM) VerifReadOnly() bool { return evm.interpreter.readOnly }
 
 // VerifCallGasTemp is the gas computed by the last gasCall*/callGas (63/64 rule).
 func (evm *EVM) VerifCallGasTemp() uint64 { return evm.callGasTemp }
+
+// VerifPrecompile is one row of the precompile table: the address (as an integer; all
+// precompile addresses are small) and whether the code declares it state-modifying
+// (precompileWritesState, the predicate RunPrecompiledContract uses for the static-call guard).
+type VerifPrecompile struct {
+	Addr        uint64
+	WritesState bool
+}
+
+// VerifPrecompiles lists PrecompiledContracts sorted by address.
+func VerifPrecompiles() []VerifPrecompile {
+	var out []VerifPrecompile
+	for a, p := range PrecompiledContracts {
+		out = append(out, VerifPrecompile{Addr: a.Big().Uint64(), WritesState: precompileWritesState(p)})
+	}
+	for i := 1; i < len(out); i++ {
+		for j := i; j > 0 && out[j].Addr < out[j-1].Addr; j-- {
+			out[j], out[j-1] = out[j-1], out[j]
+		}
+	}
+	return out
+}
